@@ -373,10 +373,23 @@ ModelReplayer.evaluate = _evaluate
 ModelReplayer.poke = _poke
 
 
+class EndOfHistory(Exception):
+    """the generated history cannot be continued on the real objects within the harness's exact arithmetic"""
+
+
 def replay(ops_list, kinds, codec):
     traces = []
     for tid, ops in enumerate(ops_list, 1):
         rp = ModelReplayer(kinds, codec)
         names = [project(rp.slots[1], codec)["name"], project(rp.slots[2], codec)["name"]]
-        traces.append({"tid": tid, "kinds": list(kinds), "names": names, "steps": [rp.apply(op) for op in ops]})
+        steps = []
+        for op in ops:
+            if op[0] in ("idiv", "div"):
+                # a division is only replayed while it is exact on the REAL coefficients (penalty terms of real constraint
+                # methods are not the specification's): otherwise the history ends here, without a verdict
+                vals = list(dict.values(rp.slots[op[1]]))
+                if any((not isinstance(v, int)) or v % abs(op[2]) for v in vals):
+                    break
+            steps.append(rp.apply(op))
+        traces.append({"tid": tid, "kinds": list(kinds), "names": names, "steps": steps})
     return traces
